@@ -339,7 +339,8 @@ func deniableCase(x *hx.Ctx, n, liar int, board string) {
 				continue
 			}
 			deliver := msgs
-			if keyRound && i == 0 {
+			if keyRound { // the same tampered vector goes to everybody: the others see participant 0 as having dropped out, and
+				// all derive the same challenge WITHOUT participant 0's randomness
 				tampered = true
 				deliver = append([][]byte{}, msgs...)
 				switch board {
@@ -348,8 +349,11 @@ func deniableCase(x *hx.Ctx, n, liar int, board string) {
 				case "own-key-short":
 					deliver[0] = deliver[0][:127]
 				case "vector-truncated":
-					deliver = [][]byte{}
+					if i == 0 {
+						deliver = [][]byte{}
+					}
 				}
+				_ = i
 			}
 			nd.inbox <- deliver
 		}
